@@ -211,7 +211,7 @@ def descs_C06(tier):
         for prim in prims:
             for n in range(1, 4):
                 for edges in multigraphs(n, 4 if tier == "quick" else 5):
-                    for form in (("vars", "neg", "cmp") if len(edges) >= 1 else ("vars",)):
+                    for form in (("vars", "neg", "cmp", "tied") if len(edges) >= 1 else ("vars",)):
                         yield dict(func=func, n=n, edges=[list(e) for e in edges], prim=prim, form=form)
             for edges in simple_graphs(4):
                 yield dict(func=func, n=4, edges=[list(e) for e in edges], prim=prim, form="vars")
@@ -474,7 +474,7 @@ def inst_C09(d):
 def descs_C09(tier):
     for n in range(1, 4):
         for edges in multigraphs(n, 4 if tier == "quick" else 6):
-            for form in (("vars", "neg", "xor2", "cmp", "ncmp") if len(edges) >= 2 else ("vars",)):
+            for form in (("vars", "neg", "xor2", "cmp", "ncmp", "tied") if len(edges) >= 2 else ("vars",)):
                 yield dict(func="active_edges_acyclic", n=n, edges=[list(e) for e in edges], form=form)
     for edges in simple_graphs(4):
         yield dict(func="active_edges_acyclic", n=4, edges=[list(e) for e in edges], form="vars")
@@ -499,10 +499,35 @@ def inst_C10(d):
     hkeys = [(y, x) for y in range(h + 1) for x in range(w)]
     vkeys = [(y, x) for y in range(h) for x in range(w + 1)]
 
+    # "tied": a frame built from caller-supplied arrays in which a segment and its half-turn image are the SAME variable
+    # (an encoder must allocate its auxiliary variables per lattice element, not per distinct operand)
+    tied = bool(d.get("tied"))
+    def partner(kind, y, x):
+        return (kind, h - y, w - 1 - x) if kind == "h" else (kind, h - 1 - y, w - x)
+    segs = [("h", y, x) for (y, x) in hkeys] + [("v", y, x) for (y, x) in vkeys]
+    rep_of = {}
+    for sg in segs:
+        p_ = partner(*sg)
+        rep_of[sg] = min(sg, p_) if tied else sg
+    reps = sorted(set(rep_of.values()))
+
     def declare(s):
-        fr = BoolGridFrame(s, h, w)
-        state["frame"] = fr
-        return [fr.horizontal[y, x] for (y, x) in hkeys] + [fr.vertical[y, x] for (y, x) in vkeys]
+        if not tied:
+            fr = BoolGridFrame(s, h, w)
+            state["frame"] = fr
+            return [fr.horizontal[y, x] for (y, x) in hkeys] + [fr.vertical[y, x] for (y, x) in vkeys]
+        from cspuz.array import BoolArray2D
+        vs = {r: s.bool_var() for r in reps}
+        H = BoolArray2D([vs[rep_of[("h", y, x)]] for (y, x) in hkeys], (h + 1, w))
+        V = BoolArray2D([vs[rep_of[("v", y, x)]] for (y, x) in vkeys], (h, w + 1))
+        state["frame"] = BoolGridFrame(s, h, w, horizontal=H, vertical=V)
+        return [vs[r] for r in reps]
+
+    def _full(alpha):
+        if not tied:
+            return list(alpha)
+        val = dict(zip(reps, alpha))
+        return [val[rep_of[sg]] for sg in segs]
 
     def emit(s, caller):
         if d.get("via") == "cycle_fn":
@@ -514,6 +539,7 @@ def inst_C10(d):
         return list(p) + list(c)
 
     def pred(alpha):
+        alpha = _full(alpha)
         hor = dict(zip(hkeys, alpha[:len(hkeys)]))
         ver = dict(zip(vkeys, alpha[len(hkeys):]))
         ok, visited, cross = graphpred.crossable(h, w, hor, ver, sc)
@@ -533,6 +559,9 @@ def descs_C10(tier):
             for prim in (False, True):
                 yield dict(func="active_edges_connected_crossable", frame=[h, w], single_cycle=sc, prim=prim)
         yield dict(func="active_edges_connected_crossable", frame=[h, w], single_cycle=True, prim=False, via="cycle_fn")
+        if h * w >= 1 and w >= 1:
+            for sc in (False, True):
+                yield dict(func="active_edges_connected_crossable", frame=[h, w], single_cycle=sc, prim=False, tied=True)
 
 
 # ------------------------------------------------------------------------------------------- deep instances
